@@ -120,6 +120,51 @@ def problems():
                 if order != list(reversed(names)):
                     out.append(f"after the stream was {how}d the enclosing scopes completed as {order}, expected {list(reversed(names))}")
                 seen.clear()
+        # several streams created in ONE scope and consumed, after that scope was left, in every order: the scope completes
+        # exactly once, after the last of them ended - whichever was created first
+        import itertools
+        for count in (2, 3):
+            for perm in itertools.permutations(range(count)):
+                fired = []
+                sc = ctx.scope("shared", S(v=1), completion=lambda metrics: fired.append(metrics.is_completed))
+                await sc.__aenter__()
+                streams = [ctx.stream(source, [k, k + 10], False) for k in range(count)]
+                await sc.__aexit__(None, None, None)
+                for step, k in enumerate(perm):
+                    got = [x async for x in streams[k]]
+                    for _ in range(3):
+                        await asyncio.sleep(0)
+                    if got != [k, k + 10]:
+                        out.append(f"{count} streams of one scope consumed in order {perm}: stream {k} delivered {got}")
+                    if fired and step < count - 1:
+                        out.append(f"{count} streams of one scope consumed in order {perm}: the scope completed after {step + 1} of them")
+                if fired != [True]:
+                    out.append(f"{count} streams created in one scope and consumed in order {perm} after it was left: the scope's "
+                               f"completion fired {len(fired)} times (is_completed: {fired})")
+                seen.clear()
+        # a stream whose generator creates further streams and hands them to the consumer, consumed in both orders
+        for order_ in ((0, 1), (1, 0)):
+            fired = []
+
+            async def outer_source():
+                inner = [ctx.stream(source, [k], False) for k in (0, 1)]
+                for s_ in inner:
+                    yield s_
+            sc = ctx.scope("streams-of-streams", S(v=1), completion=lambda metrics: fired.append(metrics.is_completed))
+            await sc.__aenter__()
+            outer_stream = ctx.stream(outer_source)
+            await sc.__aexit__(None, None, None)
+            inner_streams = [s_ async for s_ in outer_stream]
+            for k in order_:
+                got = [x async for x in inner_streams[k]]
+                if got != [k]:
+                    out.append(f"stream of streams, inner stream {k}: delivered {got}")
+            for _ in range(4):
+                await asyncio.sleep(0)
+            if fired != [True]:
+                out.append(f"a stream yielding two further streams, those consumed in order {order_}: the creating scope's "
+                           f"completion fired {len(fired)} times (is_completed: {fired})")
+            seen.clear()
         # consumed in another task / outside any scope
         async with ctx.scope("creator", S(v=1)):
             stream = ctx.stream(source, [1, 2], False)
